@@ -380,8 +380,15 @@ fn range_call_plan(p: &mut Prng, sw: &Swarm, w: usize, db: usize, aim: Option<&V
             };
             let k = if w > 160 { k.min(12) } else { k };
             long_stall_used = k > 64;
-            for _ in 0..k {
-                plan.push(Plan::Repeat);
+            if w <= 8 && p.chance(1, 400) {
+                // a stuck source for tens of thousands of draws (a retry cap at a power of two, say)
+                let n = [32767u32, 32768, 32769, 65534, 65535, 65536, 65537, 100_000, 131_072][p.below(9) as usize];
+                plan.push(Plan::RepeatN(n));
+                long_stall_used = true;
+            } else {
+                for _ in 0..k {
+                    plan.push(Plan::Repeat);
+                }
             }
         }
     }
@@ -567,7 +574,13 @@ fn mixed_op(p: &mut Prng, sw: &Swarm, w: usize, db: usize, signed: bool, shape_w
                     // total byte size just below / at / above a power-of-two boundary (chunked fills)
                     let b = [255usize, 256, 257, 511, 512, 513, 1023, 1024, 1025, 4095, 4096, 4097, 65535, 65536, 65537][p.below(15) as usize];
                     let l = (b + w - 1) / w;
-                    (l + p.below(3) as usize).saturating_sub(1).min(if w > 256 { 70 } else { 70_000 })
+                    if p.chance(1, 400) {
+                        // tens of megabytes (a cap on the size of one request to the operating system's entropy call)
+                        let gb = [(1usize << 24) - 1, 1 << 24, (1 << 25) - 1, 1 << 25, (1 << 25) + 1, 3 << 24][p.below(6) as usize];
+                        (gb + w - 1) / w + p.below(3) as usize
+                    } else {
+                        (l + p.below(3) as usize).saturating_sub(1).min(if w > 256 { 70 } else { 70_000 })
+                    }
                 }
             };
             let via = [FillVia::TryFillSlice, FillVia::TryFillSlice, FillVia::FillTrait, FillVia::RngTryFill, FillVia::RngFill][p.below(5) as usize];
@@ -880,7 +893,7 @@ fn tasks_run(seed: u64, run: u64, p: &mut Prng, menu: &[Box<dyn TyObj>]) -> RunS
                         0 => p.below(10) as usize,
                         1 => 10 + p.below(40) as usize,
                         _ => {
-                            let b = [63usize, 64, 65, 255, 256, 257, 511, 512, 513, 1023, 1024, 1025, 4095, 4096, 4097][p.below(15) as usize];
+                            let b = [63usize, 64, 65, 255, 256, 257, 511, 512, 513, 1023, 1024, 1025, 4095, 4096, 4097, 5000, 8191, 8192, 8193, 12289][p.below(20) as usize];
                             ((b + w - 1) / w + p.below(3) as usize).saturating_sub(1)
                         }
                     }
